@@ -42,6 +42,8 @@ impl<T: Deref<Target = str>> BaseIri<T> {
         iri: R,
         buf: &'a mut String,
     ) -> R::OutputAbs {
+        // the resolver expects to write at the beginning of the buffer
+        buf.clear();
         R::output_abs(self.0.resolve_into(iri.borrow(), buf).map(|()| &buf[..]))
     }
 
@@ -106,11 +108,8 @@ impl<T: Deref<Target = str>> BaseIriRef<T> {
         buf: &'a mut String,
     ) -> R::OutputRel {
         let protect = self.needs_protection(iri.borrow());
-        if protect {
-            // `iri` has no scheme: the resolver replaces whatever `buf` contains,
-            // so the result starts at the beginning of `buf`
-            buf.clear();
-        }
+        // the resolver expects to write at the beginning of the buffer
+        buf.clear();
         R::output_rel(self.0.resolve_into(iri.borrow(), buf).map(|()| {
             if protect {
                 protect_first_segment(buf, 0);
@@ -274,6 +273,16 @@ mod test {
         let mut buf = String::from("previous content");
         let got = base.resolve_into(IriRef::new("../c:d").unwrap(), &mut buf);
         assert_eq!(got.as_str(), "./c:d");
+    }
+
+    #[test]
+    fn resolve_into_used_buffer_absolute_base() {
+        let base = BaseIri::new("http://a/b/c").unwrap();
+        for (rel, abs) in [("../d", "http://a/d"), ("?q", "http://a/b/c?q"), ("s:x", "s:x"), ("", "http://a/b/c")] {
+            let mut buf = String::from("previous content");
+            let got = base.resolve_into(IriRef::new(rel).unwrap(), &mut buf);
+            assert_eq!(got.as_str(), abs);
+        }
     }
 
     #[test]
